@@ -389,6 +389,9 @@ def inline_new_temporaries(fnode, base_names, stats):
           changed = True
           break
         continue
+      reads = set(n.id for n in ast.walk(S.value) if isinstance(n, ast.Name))
+      if _rebound_before_use(fnode, S, reads, all_uses):
+        continue
       if _is_pure(S.value, attrs=False) or _stable_self_attr(S.value) or (_is_pure(S.value) and len(all_uses) == len(own_uses) and _uses_before_effects(blk, S, all_uses)):
         for u in all_uses:
           _replace_node(fnode, u, copy.deepcopy(S.value))
@@ -454,6 +457,26 @@ def inline_new_temporaries(fnode, base_names, stats):
                 stats['temps'] = stats.get('temps', 0) + 1
                 break
   ast.fix_missing_locations(fnode)
+
+
+def _rebound_before_use(fnode, S, reads, uses):
+  """Can a name that the definition S reads be rebound after S ran and before one of the uses is evaluated?
+  (a) a store textually between S and the use; (b) a store anywhere in a loop that holds the use but not S (a later iteration)."""
+  def pos(n):
+    return (getattr(n, 'lineno', 0), getattr(n, 'col_offset', 0))
+  stores = [n for n in ast.walk(fnode) if isinstance(n, ast.Name) and isinstance(n.ctx, (ast.Store, ast.Del)) and n.id in reads and not any(n is x for x in ast.walk(S))]
+  if not stores:
+    return False
+  loops = [lp for lp in ast.walk(fnode) if isinstance(lp, (ast.For, ast.While, ast.AsyncFor))]
+  for u in uses:
+    for w in stores:
+      if pos(S) < pos(w) < pos(u):
+        return True
+    for lp in loops:
+      inside = set(id(x) for x in ast.walk(lp))
+      if id(u) in inside and id(S) not in inside and any(id(w) in inside for w in stores):
+        return True
+  return False
 
 
 _PURE_CALLS = ('len', 'int', 'float', 'str', 'bool', 'isinstance', 'min', 'max', 'abs')
@@ -585,6 +608,134 @@ def splice_starred_literals(tree, stats):
         else:
           out.append(a)
       n.args = out
+
+
+def import_table(tree):
+  """{local name: [module, attribute or None]} of the absolute top-level imports of a module."""
+  out = {}
+  for st in tree.body:
+    if isinstance(st, ast.Import):
+      for a in st.names:
+        if a.asname:
+          out[a.asname] = [a.name, None]
+        elif '.' not in a.name:
+          out[a.name] = [a.name, None]
+    elif isinstance(st, ast.ImportFrom) and st.level == 0 and st.module:
+      for a in st.names:
+        if a.name != '*':
+          out[a.asname or a.name] = [st.module, a.name]
+  return out
+
+
+def restore_import_style(tree, rel, stats):
+  """`from M import f; f(x)`  <->  `import M; M.f(x)`  <->  `import M as m; m.f(x)`: the spelling the reference module uses is
+  restored (names that are bound in any other way in the module are left alone)."""
+  base = load_baseline().get('imports', {}).get(rel)
+  if not base:
+    return
+  cur = import_table(tree)
+  bound = set(n.id for n in ast.walk(tree) if isinstance(n, ast.Name) and isinstance(n.ctx, (ast.Store, ast.Del)))
+  bound |= set(a.arg for n in ast.walk(tree) if isinstance(n, ast.arguments) for a in n.posonlyargs + n.args + n.kwonlyargs + [x for x in (n.vararg, n.kwarg) if x])
+  bound |= set(n.name for n in ast.walk(tree) if isinstance(n, (ast.FunctionDef, ast.AsyncFunctionDef, ast.ClassDef)))
+  bound |= set(h.name for h in ast.walk(tree) if isinstance(h, ast.ExceptHandler) and h.name)
+  base_mod_local = dict((v[0], k) for k, v in base.items() if v[1] is None)       # module -> local name in the reference
+  base_attr_local = dict(((v[0], v[1]), k) for k, v in base.items() if v[1] is not None)
+  name_map = {}     # current bare name -> replacement expression text
+  attr_map = {}     # (current module local, attr) -> reference bare name
+  need_import, need_from = set(), set()
+  for loc, (mod, attr) in cur.items():
+    if loc in bound:
+      continue
+    if attr is not None and loc not in base and mod in base_mod_local and base_mod_local[mod] not in bound:
+      name_map[loc] = (base_mod_local[mod], attr)
+      if base_mod_local[mod] not in cur:
+        need_import.add((mod, base_mod_local[mod]))
+    elif attr is None and loc not in base and mod in base_mod_local and base_mod_local[mod] not in bound and base_mod_local[mod] not in cur:
+      name_map[loc] = (base_mod_local[mod], None)        # import M as m  ->  M
+      need_import.add((mod, base_mod_local[mod]))
+  for loc, (mod, attr) in cur.items():
+    if attr is None and loc not in bound:
+      for (bm, ba), bl in base_attr_local.items():
+        if bm == mod and bl not in bound and (bl not in cur or cur[bl] == [bm, ba]) and loc not in base:
+          attr_map[(loc, ba)] = bl
+  if not name_map and not attr_map:
+    return
+  changed = [0]
+
+  class R(ast.NodeTransformer):
+    def visit_Attribute(self, n):
+      self.generic_visit(n)
+      if isinstance(n.value, ast.Name) and (n.value.id, n.attr) in attr_map and isinstance(n.ctx, ast.Load):
+        bl = attr_map[(n.value.id, n.attr)]
+        if bl not in cur:
+          need_from.add((cur[n.value.id][0], n.attr, bl))
+        changed[0] += 1
+        return ast.copy_location(ast.Name(id=bl, ctx=ast.Load()), n)
+      return n
+
+    def visit_Name(self, n):
+      if n.id in name_map and isinstance(n.ctx, ast.Load):
+        m, a = name_map[n.id]
+        changed[0] += 1
+        if a is None:
+          return ast.copy_location(ast.Name(id=m, ctx=ast.Load()), n)
+        return ast.copy_location(ast.Attribute(value=ast.Name(id=m, ctx=ast.Load()), attr=a, ctx=ast.Load()), n)
+      return n
+  R().visit(tree)
+  k = 0
+  for k, st in enumerate(tree.body):
+    if not (isinstance(st, ast.Expr) and isinstance(st.value, ast.Constant)) and not (isinstance(st, ast.ImportFrom) and st.module == '__future__'):
+      break
+  for mod, loc in sorted(need_import):
+    tree.body.insert(k, ast.Import(names=[ast.alias(name=mod, asname=None if loc == mod else loc)]))
+  for mod, a, bl in sorted(need_from):
+    tree.body.insert(k, ast.ImportFrom(module=mod, names=[ast.alias(name=a, asname=None if bl == a else bl)], level=0))
+  if changed[0]:
+    stats['imports_restyled'] = stats.get('imports_restyled', 0) + changed[0]
+  ast.fix_missing_locations(tree)
+
+
+def modern_syntax(tree, stats):
+  """Spelling differences of newer Python that carry no behaviour here: `super()` -> `super(Cls, self)` in methods, annotated
+  assignments -> plain assignments (a bare annotation is dropped), parameter/return annotations dropped."""
+  for c in [n for n in ast.walk(tree) if isinstance(n, ast.ClassDef)]:
+    for m in c.body:
+      if not isinstance(m, (ast.FunctionDef, ast.AsyncFunctionDef)):
+        continue
+      ps = m.args.posonlyargs + m.args.args
+      if not ps or any(ast.unparse(d) == 'staticmethod' for d in m.decorator_list):
+        continue
+      first = ps[0].arg
+      stack = list(m.body)
+      while stack:
+        n = stack.pop()
+        if isinstance(n, (ast.FunctionDef, ast.AsyncFunctionDef, ast.ClassDef)):
+          continue      # zero-argument super() in a nested function refers to that function's first parameter
+        if isinstance(n, ast.Call) and isinstance(n.func, ast.Name) and n.func.id == 'super' and not n.args and not n.keywords:
+          n.args = [ast.Name(id=c.name, ctx=ast.Load()), ast.Name(id=first, ctx=ast.Load())]
+          stats['modern'] = stats.get('modern', 0) + 1
+        stack.extend(ast.iter_child_nodes(n))
+  for node in ast.walk(tree):
+    if isinstance(node, (ast.FunctionDef, ast.AsyncFunctionDef)):
+      node.returns = None
+      for a in node.args.posonlyargs + node.args.args + node.args.kwonlyargs + [x for x in (node.args.vararg, node.args.kwarg) if x is not None]:
+        a.annotation = None
+    for fld in ('body', 'orelse', 'finalbody'):
+      v = getattr(node, fld, None)
+      if isinstance(v, list) and v and isinstance(v[0], ast.stmt) and any(isinstance(st, ast.AnnAssign) for st in v) and not isinstance(node, ast.ClassDef):
+        out = []
+        for st in v:
+          if isinstance(st, ast.AnnAssign):
+            stats['modern'] = stats.get('modern', 0) + 1
+            if st.value is not None:
+              out.append(ast.copy_location(ast.Assign(targets=[st.target], value=st.value), st))
+          else:
+            out.append(st)
+        setattr(node, fld, out or [ast.copy_location(ast.Pass(), v[0])])
+    if isinstance(node, ast.ExceptHandler) and any(isinstance(st, ast.AnnAssign) for st in node.body):
+      node.body = [ast.copy_location(ast.Assign(targets=[st.target], value=st.value), st) if isinstance(st, ast.AnnAssign) and st.value is not None else st
+                   for st in node.body if not (isinstance(st, ast.AnnAssign) and st.value is None)] or [ast.Pass()]
+  ast.fix_missing_locations(tree)
 
 
 def split_withs(tree, stats):
@@ -1923,6 +2074,14 @@ def normalize_module(tree, rel, stats=None):
   except Exception as e:
     stats['log_error'] = repr(e)
   try:
+    modern_syntax(tree, stats)
+  except Exception as e:
+    stats['modern_error'] = repr(e)
+  try:
+    restore_import_style(tree, rel, stats)
+  except Exception as e:
+    stats['import_error'] = repr(e)
+  try:
     acquire_release_to_with(tree, stats)
     split_withs(tree, stats)
   except Exception as e:
@@ -2067,8 +2226,10 @@ def baseline_of_tree(trees):
       if isinstance(n, (ast.FunctionDef, ast.AsyncFunctionDef)):
         fn(n, rel, q + '.' + n.name)
   classes = {}
+  imports = {}
   for rel, tree in trees.items():
+    imports[rel] = import_table(tree)
     walk(tree.body, rel, '')
     for c in [x for x in ast.walk(tree) if isinstance(x, ast.ClassDef)]:
       classes[rel + '::' + c.name] = [[a, fp] for a, fp in class_attr_fps(c)]
-  return {'functions': functions, 'inventory': inventory, 'classes': classes, 'sources': sources, 'class_inventory': class_inventory}
+  return {'functions': functions, 'inventory': inventory, 'classes': classes, 'sources': sources, 'class_inventory': class_inventory, 'imports': imports}
